@@ -186,15 +186,16 @@ def run(tier):
     # the suites' cases: iterator pipelines (c11), evaluation order incl. struct / tuple / array / call operands
     # with effects (c07), scopes, closures, modules and imports incl. files shared between programs (c06),
     # cells and aliases (c13); positive cases only
-    every = {"c11": 8, "c07": 2, "c06": 1, "c13": 8} if tier == "quick" else {"c11": 4, "c07": 1, "c06": 1, "c13": 4}
+    # ... and the type-test suite (c12t: its `extra' programs apply one type test to values whose types differ only inside)
+    every = {"c11": 8, "c07": 2, "c06": 1, "c13": 8, "c12t": 12} if tier == "quick" else {"c11": 4, "c07": 1, "c06": 1, "c13": 4, "c12t": 4}
     cases = os.path.join(work, "cases.ndjson")
     with open(cases, "w") as f:
         f.write(open(src).read())
-        for suite in ("c11", "c07", "c06", "c13"):
+        for suite in ("c11", "c07", "c06", "c13", "c12t"):
             r_s = L.run_suite(chk, suite, tier)
             path = os.path.join(os.path.dirname(r_s["events_path"]), suite + "_cases.ndjson")
             for i, line in enumerate(open(path)):
-                if i % every[suite] == 0 or '"import' in line:
+                if i % every[suite] == 0 or '"import' in line or '"c12t-extra' in line:
                     f.write(line)
         for e in EXTRA:
             f.write(json.dumps(e) + "\n")
